@@ -128,6 +128,14 @@ def deps_of(defs):
     return d
 
 
+def ext_two_types(defs):
+    seen = {}
+    for _, ty, e in defs:
+        for k in exts_of(e, []):
+            if seen.setdefault(k, ty) != ty: return True
+    return False
+
+
 def static_wt(defs):
     """well-formedness that does not depend on the supplied values"""
     decl = {}
@@ -287,7 +295,20 @@ def mutate_block(rng, defs):
     i = rng.randrange(len(defs))
     name, ty, e = defs[i]
     kind = rng.choice(["unsuffixed", "wrong-lit-type", "forward", "unknown", "bool-arith", "self", "empty-max",
-                       "wrong-ref-type"])
+                       "wrong-ref-type", "ext-two-types", "ext-two-types"])
+    if kind == "ext-two-types":
+        # one external constant declared by two consts of different types (either order)
+        used = [(j, d[1], k) for j, d in enumerate(defs) for k in exts_of(d[2], [])]
+        if not used:
+            kind = "unknown"
+        else:
+            j, ty0, (p, n) = rng.choice(used)
+            other = rng.choice([t for t in TYPES if t != ty0])
+            new = ("TWO_%d" % j, other, ("ext", p, n) if other == "bool" or rng.random() < 0.5
+                   else ("add", ("ext", p, n), mk_lit_expr(other, 1)))
+            pos = rng.choice([0, j, j + 1, len(defs)])
+            defs.insert(pos, new)
+            return defs, kind
     if kind == "unsuffixed":
         e = ("add", e, ("u", 1, "uX")) if ty != "bool" else ("u", 1, "uX")
     elif kind == "wrong-lit-type":
